@@ -252,3 +252,23 @@ def multi_sink_case(rng: random.Random, with_ns: bool = True):
 
 
 FLAT_LOGICAL_OF = {1: 1, 2: 2, 3: 2}
+
+
+def boundary_frame_case(rng: random.Random):
+    """(cfg, stmts): ONE frame whose byte length lands on a length-varint boundary (127/128, 16383/16384 +- 70)."""
+    integ = rng.choice(["generic", "rdflib"])
+    phys = rng.choice([1, 2])
+    target = rng.choice([128, 16384, 16384, 16384]) + rng.randint(-6, 135)
+    stmts = []
+    # ~100 bytes of fixed cost; the literal absorbs the rest, a few statements spread it
+    n = rng.choice([1, 1, 3])
+    per = max(1, (target - 90 - 25 * n) // n)
+    for k in range(n):
+        st = [("iri", "http://e/s"), ("iri", f"http://e/p{k}"), ("lit", "y" * per, None, None)]
+        if phys == 2:
+            st.append(("iri", "http://e/g"))
+        stmts.append(tuple(st))
+    cfg = {"integration": integ, "physical": phys, "entry": "stream_frames_gen", "frame_size": 250, "preset": (16, 4, 0),
+           "delimited": True, "logical": FLAT_LOGICAL_OF[phys], "generalized": integ == "generic", "rdf_star": integ == "generic",
+           "ns": False, "stream_name": "", "collect": False}
+    return cfg, stmts, target
